@@ -106,16 +106,8 @@ fn peek_i<T>(r: Result<simple_dns::Result<T>, String>, f: impl Fn(T) -> i64) -> 
     }
 }
 
-pub fn run(a: &Args) {
-    let mut out = Out::new(&a.out, a.shards);
-    let thorough = a.tier == "thorough";
-    let variants: Vec<(u16, [u16; 4])> = if thorough {
-        vec![(0x1234, [0, 0, 0, 0]), (0, [1, 1, 1, 1]), (0xFFFF, [2, 0, 1, 3]), (0x8001, [0, 3, 0, 0]), (0x00FF, [1, 0, 2, 1])]
-    } else {
-        vec![(0x1234, [0, 0, 0, 0]), (0xFFFE, [2, 1, 0, 3])]
-    };
-    let mut st = Stats::default();
-    for (id, counts) in &variants {
+pub fn emit_words(out: &mut Out, st: &mut Stats, variants: &[(u16, [u16; 4])]) {
+    for (id, counts) in variants {
         for w0 in (0u32..65536).step_by(256) {
             let mut p = vec![];
             let mut k = vec![];
@@ -132,7 +124,7 @@ pub fn run(a: &Args) {
                         (fields, re)
                     })
                 });
-                st.case(("w", id, counts, w), matches!(pr, Ok(Ok(_))));
+                st.case(("w", *id, *counts, w), matches!(pr, Ok(Ok(_))));
                 match pr {
                     Ok(Ok((f, re))) => {
                         p.push(f);
@@ -170,6 +162,18 @@ pub fn run(a: &Args) {
             out.emit(json!({"ev": "HdrWords", "cls": "hdr-words", "id": id, "counts": counts, "w0": w0, "n": 256, "p": p, "k": k, "r": r}));
         }
     }
+}
+
+pub fn run(a: &Args) {
+    let mut out = Out::new(&a.out, a.shards);
+    let thorough = a.tier == "thorough";
+    let variants: Vec<(u16, [u16; 4])> = if thorough {
+        vec![(0x1234, [0, 0, 0, 0]), (0, [1, 1, 1, 1]), (0xFFFF, [2, 0, 1, 3]), (0x8001, [0, 3, 0, 0]), (0x00FF, [1, 0, 2, 1])]
+    } else {
+        vec![(0x1234, [0, 0, 0, 0]), (0xFFFE, [2, 1, 0, 3])]
+    };
+    let mut st = Stats::default();
+    emit_words(&mut out, &mut st, &variants);
     // build side: ctor x flag subsets x named opcodes x named rcodes
     let opcodes = [0i64, 1, 2, 4, 5];
     let rcodes = [0i64, 1, 2, 3, 4, 5, 6, 7, 8, 9, 10, 16];
